@@ -147,10 +147,13 @@ int main() {
   int hw = (int)galois::substrate::getThreadPool().getMaxThreads();
   nthr = (int)wl_range(1, hw);
   galois::setActiveThreads(nthr); nthr = (int)galois::getActiveThreads();
+  // every array the graph code maps from here on (topology, edge data, the temporaries of transpose / in-edge construction)
+  // is under the happens-before check: two threads touching one slot without ordering is reported even when the
+  // interleaving sampled by this seed happens to produce the right answer
+  vsim_hb_watch_mmaps(1);
   gr::Model m = gr::generate(tier() ? 2000 : 120, true);
   int version = layout == 7 ? 2 : (int)wl_range(1, 2);
   size_t se = layout == 1 ? 0 : layout == 7 ? 8 : 4;
-  if (version == 2 && se && m.edges.size() % 2) version = 1;   // odd edge counts with data in v2: reader/writer disagree on padding (decided by C12)
   std::string path = std::string(vsim_workdir()) + "/g.gr";
   gr::write_file(path, gr::encode(m, version, se));
   vsim_note("plan", "nodes=%u edges=%zu version=%d sizeofEdge=%zu threads=%d", m.n, m.edges.size(), version, se, nthr);
